@@ -1,8 +1,10 @@
 import BsVerif.Props.C01
 open BsVerif.Bp
 #print axioms C01_nextHit_is_first
+#print axioms Sim_status
 #print axioms C01_simulation_step
 #print axioms C01_simulation
+#print axioms Sim_init
 #print axioms C01_continue_projection
 #print axioms C01_no_corrupt_no_outOfFuel
 #print axioms C01_patch_inv
